@@ -108,17 +108,31 @@ def rules(ck, P):
                     ok_slot = ok_slot and ir.contains(n["r"], lambda y: (y.get("q") or "").endswith("Option::Some::{Ctor#0}"))
             ck.check(ok_slot and len(asg) == 1, "R-FIRST", gts["q"] + "|fill-empty-only", "a slot is written only while it is still empty (`if tiles[i].is_none()`)",
                      "slot assignment is not guarded by is_none() on the same slot: a later source overwrites an earlier one", ir.loc(lp))
-            clears = [n for n in ir.walk_nodes(clo["body"]) if n.get("k") == "mcall" and n.get("name") in ("clear", "fill", "truncate", "take") and "tiles" in ir.place_str(n["recv"])]
+            slot_h = ir.local_hid(ir.strip(asg[0]["l"])["e"]) if asg else None
+            clears = [n for n in ir.walk_nodes(clo["body"]) if n.get("k") == "mcall" and n.get("name") in ("clear", "fill", "truncate", "take") and slot_h is not None and
+                      slot_h in {ir.local_hid(y) for y in ir.walk_nodes(n["recv"])}]
             ck.check(not clears, "R-FIRST", gts["q"] + "|no-clear", "slots are never cleared between sources", "slots are cleared/taken between sources", ir.loc(clo))
             rc = [n for n in ir.walk_nodes(lp["body"]) if n.get("k") == "call" and (n.get("q") or "").endswith("compression::recompress")]
             _recompress_ok(ck, gts, rc, src["hid"], "stream")
-            _every_source_consulted(ck, gts, clo, lp, src)
+            _every_source_consulted(ck, gts, clo, lp, src, slot_h)
             # the recompress is inside the fill guard (only the winning tile is re-encoded and stored)
     # ---------------- build: union coverage, compression, format
     b = builds[0]
     comp.sources_in_list_order(ck, "R-FIRST", "overlay", b, adt)
     lets = comp.lets_of(b)
-    loops = [n for n in ir.walk_nodes(b["body"]) if n.get("k") == "for" and ir.place_str(n["iter"]) in ("sources.iter()", "sources", "sources.iter().skip(1)")]
+    sh_ = None
+    for n in ir.walk_nodes(b["body"]):
+        if n.get("k") == "struct" and n.get("q") == adt:
+            for f in n["fields"]:
+                if f["name"] == "sources":
+                    sh_ = ir.local_hid(f["e"])
+
+    def over_all_sources(it):
+        it = ir.strip(it)
+        if it is not None and it.get("k") == "mcall" and it.get("name") == "iter" and not it.get("a"):
+            it = ir.strip(it["recv"])
+        return sh_ is not None and ir.local_hid(it) == sh_
+    loops = [n for n in ir.walk_nodes(b["body"]) if n.get("k") == "for" and over_all_sources(n["iter"])]
     inc = [n for n in ir.walk_nodes(b["body"]) if n.get("k") == "mcall" and n.get("name") == "include_bbox_pyramid"]
     ok_union = False
     if len(loops) >= 1 and inc:
@@ -133,7 +147,7 @@ def rules(ck, P):
             if n.get("k") == "let" and "init" in n and n["pat"].get("k") == "bind":
                 llets[n["pat"]["hid"]] = n["init"]
         full = comp.deep_place(inc[0]["a"][0], {**lets, **llets})
-        ok_union = in_loop and full.startswith(src["name"] + ".get_parameters()") and full.endswith("bbox_pyramid") and ir.place_str(lp["iter"]) in ("sources.iter()", "sources")
+        ok_union = in_loop and full.startswith(src["name"] + ".get_parameters()") and full.endswith("bbox_pyramid") and over_all_sources(lp["iter"])
     ck.check(ok_union, "R-COVER-OPS", b["q"] + "|union", "coverage includes the pyramid of every source (include_bbox_pyramid inside a loop over all sources)",
              "coverage is not the union over all sources", ir.loc(b))
     # the stored parameters use that pyramid
@@ -151,15 +165,16 @@ def rules(ck, P):
     for n in ir.walk_nodes(b["body"]):
         if n.get("k") == "if":
             c = ir.cmp_norm(n["c"])
-            if c and c[1] == "!=" and "tile_compression" in c[0] + c[2]:
-                okc = ir.contains(n["then"], lambda y: y.get("k") == "assign" and ir.place_str(y["l"]) == "tile_compression" and (ir.strip(y["r"]).get("q") or "").endswith("TileCompression::Uncompressed::{Ctor#0}"))
-    ck.check(okc and newp and ir.place_str(newp[0]["a"][1]) == "tile_compression", "R-COVER-OPS", b["q"] + "|compression", "declared compression is the common compression or Uncompressed",
+            ch_ = ir.local_hid(newp[0]["a"][1]) if newp else None
+            if c and c[1] == "!=" and ".tile_compression" in c[0] + c[2] and ch_ is not None and ch_ in {ir.local_hid(y) for y in ir.walk_nodes(n["c"])}:
+                okc = ir.contains(n["then"], lambda y: y.get("k") == "assign" and ir.local_hid(y["l"]) == ch_ and (ir.strip(y["r"]).get("q") or "").endswith("TileCompression::Uncompressed::{Ctor#0}"))
+    ck.check(okc and newp and ir.local_hid(newp[0]["a"][1]) is not None, "R-COVER-OPS", b["q"] + "|compression", "declared compression is the common compression or Uncompressed",
              "declared compression is not `common or Uncompressed`", ir.loc(b))
     okf = ir.contains(b["body"], lambda y: y.get("k") == "call" and y.get("q") == "anyhow::__private::not" and ir.contains(y, lambda z: z.get("k") == "field" and z.get("name") == "tile_format"))
     ck.check(okf, "R-COVER-OPS", b["q"] + "|format", "sources with a different tile format are rejected at build time", "tile formats of the sources are not compared", ir.loc(b))
 
 
-def _every_source_consulted(ck, gts, clo, lp, src):
+def _every_source_consulted(ck, gts, clo, lp, src, slot_h=None):
     """stream: a source may be skipped only when no slot is empty any more, and it is asked for a box that covers every
     empty slot.  `missing` = a local box that starts empty and grows only by include_coord3 of slots guarded by is_none()."""
     key = gts["q"]
@@ -193,7 +208,14 @@ def _every_source_consulted(ck, gts, clo, lp, src):
                 guards = [p for p in parents if p.get("k") == "if"]
                 g_ok = len(guards) == 1 and ir.unparen(guards[0]["c"]).get("k") == "mcall" and ir.unparen(guards[0]["c"]).get("name") == "is_none" and ir.contains(guards[0]["then"], lambda y: y is n)
                 inner = [p for p in parents if p.get("k") == "for"]
-                it_ok = len(inner) == 1 and ir.place_str(inner[0]["iter"]).replace(" ", "") in ("tiles.iter().enumerate()",)
+                it_ok = False
+                if len(inner) == 1:
+                    it_ = ir.strip(inner[0]["iter"])
+                    names_ = []
+                    while it_ is not None and it_.get("k") == "mcall":
+                        names_.append(it_["name"])
+                        it_ = ir.strip(it_["recv"])
+                    it_ok = names_ == ["enumerate", "iter"] and slot_h is not None and ir.local_hid(it_) == slot_h
                 ok = ok and g_ok and it_ok
         ok_missing[h] = ok and grows == 1
     good = [h for h, v in ok_missing.items() if v]
